@@ -174,7 +174,7 @@ func (st *treeState) stackOpts(t *rapid.T, n *Node) {
 		n.NoPad = bits&4 != 0
 		n.LeadOnce = bits&8 != 0
 		if bits&16 != 0 {
-			n.Symbol = rapid.SampledFrom([]string{"&", "&&", "∧", "|", "!"}).Draw(t, "symbol")
+			n.Symbol = rapid.SampledFrom([]string{"&", "&&", "∧", "|", "!", "Xor", "nand", "AND", "é"}).Draw(t, "symbol")
 		}
 		if bits&32 != 0 {
 			n.Delim = rapid.SampledFrom([]string{",", " ", "·", ";", ", "}).Draw(t, "delim")
